@@ -22,7 +22,8 @@ META = {
     "for every column the value handed to the cell is the computed field its header label names (about 100 label/field pairs, e.g. 'With Fee' -> fiat_in_with_fee, "
     "'Cost Basis' -> gl.fiat_cost_basis, 'Gains Type' -> LONG iff gl.is_long_term_capital_gains(), 'Running Sum' -> the running-sum dictionary entry of this transaction); "
     "fraction notes interpolate k+1 / n of this fraction's own event and lot; running sums and the in-lot sold percentage are accumulated over the intended sets; "
-    "RP2Decimal becomes float only inside _fill_cell; the Legend receives the same method table and from/to dates the computation used.",
+    "RP2Decimal becomes float only inside _fill_cell; the Legend receives the same method table and from/to dates the computation used; the balances shown are the replayed "
+    "flows (C07's obligations restated); no cell shows a value left over from an earlier row.",
     "not_decided": "the bytes ezodf serialises, styles, LibreOffice rendering, correctness of list.sort.",
     "assumptions": ["ezodf writes the value it is handed into the addressed cell", "float(Decimal) is the correctly rounded double"],
 }
@@ -317,6 +318,9 @@ def check_writer(rep: Report, fr: FullReport, name: str, rule_cols: str, rule_ro
         cells = _fill_calls(p)
         rows_ok = all(dict(c[1][2]).get("row_index") == ("sym", "row_index") for c in cells)
         rep.check(rows_ok and bool(cells), rule_rows, fi.module, fi.qualname, f"{name}: all cells of an entry are written on its own row", f"some cell of {name} is written at a row other than the entry's own (before the advance)", loc(loop))
+    from ..stale import check_rows_fresh
+
+    check_rows_fresh(rep, rule_rows, fr.norm, fi, loop, name)
     # collection iterated
     it = fr.norm.term(loop.iter, _iter_ctx(fr, fi))
     want_it = _coll_term(fr, spec["coll"], fi)
@@ -451,14 +455,15 @@ def run(rep: Report, tier: str) -> None:
     from . import c10, c19
 
     rw = rep.rule("C13.f", "rows shown are exactly the window's: the entry-set iterator applies both bounds on the entry's own calendar date", floor=2)
-    it = prog.func("rp2.abstract_entry_set", "EntrySetIterator.__next__")
-    comps = c10._window_comparisons(m, it)
-    for kind in ("to", "from"):
-        mine = [c for c in comps if c[2] == kind]
-        if not mine:
-            rep.violation(rw, it.module, it.qualname, f"iterator enforces the {kind}-date on the entry's calendar date", f"EntrySetIterator.__next__ contains no comparison of the entry's timestamp.date() with the {kind}-date: tables would show transactions outside the window or hide ones inside it", loc(it.node))
-        for c in mine:
-            c10._judge(rep, rw, m, it, c)
+    c10.check_iterator_window(rep, rw, m, "tables would show transactions outside the window or hide ones inside it")
+    # the Account Balances table shows the replayed balances: the replay's own obligations (flows per class, identity final = acquired + received - sent,
+    # one line per account, time order up to the to-date) are C07's; they are restated here because the table's figures are only as right as the replay
+    from . import c07
+
+    rh = rep.rule("C13.h", "the account balances shown are the replayed flows (C07.a-d: per-class effects, identity, one line per account, cut at the to-date)", floor=20)
+    sub = Report("C07", tier)
+    c07.run(sub, tier)
+    rep.absorb(sub, rh, ("C07.a", "C07.b", "C07.c", "C07.d"), "balance replay")
     # numbers inside link formulas are the computed values, unformatted
     rg = rep.rule("C13.g", "hyperlinked numeric cells carry the computed value unformatted inside the formula", floor=4)
     saved = set(norm.opaque_funcs)
